@@ -10,6 +10,8 @@ pub struct Counting;
 thread_local! {
     static CUR: Cell<isize> = const { Cell::new(0) };
     static PEAK: Cell<isize> = const { Cell::new(0) };
+    /// all bytes this thread ever asked for (allocations and the growth of reallocations); never decreases
+    static TOTAL: Cell<u64> = const { Cell::new(0) };
 }
 /// single allocations above this size fail (0 = no cap)
 pub static HARD_CAP: AtomicUsize = AtomicUsize::new(0);
@@ -56,6 +58,7 @@ unsafe impl GlobalAlloc for Counting {
 }
 
 fn add(n: usize) {
+    let _ = TOTAL.try_with(|t| t.set(t.get().wrapping_add(n as u64)));
     // signed: a thread may free what another thread allocated
     let _ = CUR.try_with(|c| {
         let v = c.get().wrapping_add(n as isize);
@@ -69,6 +72,12 @@ fn add(n: usize) {
 }
 fn sub(n: usize) {
     let _ = CUR.try_with(|c| c.set(c.get().wrapping_sub(n as isize)));
+}
+
+/// All bytes this thread has asked the allocator for so far (a reallocation counts with its new size: the bytes the
+/// allocator may have to copy).
+pub fn total() -> u64 {
+    TOTAL.with(|t| t.get())
 }
 
 /// Run `f` and return its result with the peak heap growth (bytes) of this
